@@ -77,6 +77,62 @@ theorem resolve_idem (s : List Char) : resolve (resolve s) = resolve s := by
     · have hr : resolve s = s := by simp [resolve, he, hy]
       rw [hr, hr]
 
+/-- the store never reads or writes a file with the short extension: no name resolves to `….yml` -/
+theorem resolve_ext_ne_yml (s : List Char) : (splitExt (resolve s)).2 ≠ ymlExt := by
+  by_cases he : (splitExt s).2 = []
+  · have hr : resolve s = s ++ yamlExt := by simp [resolve, he]
+    rw [hr]
+    have := splitExt_append s ['y', 'a', 'm', 'l'] yaml_nodot
+    simp only [yamlExt, this]; decide
+  · by_cases hy : (splitExt s).2 = ymlExt
+    · have hr : resolve s = (splitExt s).1 ++ yamlExt := by
+        have : ymlExt ≠ [] := by decide
+        simp [resolve, hy, this]
+      rw [hr]
+      have := splitExt_append (splitExt s).1 ['y', 'a', 'm', 'l'] yaml_nodot
+      simp only [yamlExt, this]; decide
+    · have hr : resolve s = s := by simp [resolve, he, hy]
+      rw [hr]; exact hy
+
+/-- a spelling that `resolve` rewrites carries the short extension -/
+theorem ext_yml_of_resolve_ne (s : List Char) (he : (splitExt s).2 ≠ []) (hr : resolve s ≠ s) : (splitExt s).2 = ymlExt := by
+  by_cases hy : (splitExt s).2 = ymlExt
+  · exact hy
+  · exact absurd (by simp [resolve, he, hy]) hr
+
+/-- fixed `find`: the file of the spelling is among the probes, and every probe BEFORE it is a file the store never
+    writes (no name resolves to it) — so in a directory the store manages `find` returns the spelling's own file
+    whenever that file exists -/
+theorem find_first_hit (s : List Char) :
+    ∃ pre post, findCandidates s = pre ++ resolve s :: post ∧ ∀ c ∈ pre, ∀ t, resolve t ≠ c := by
+  unfold findCandidates
+  by_cases he : (splitExt s).2 = []
+  · refine ⟨[], [s ++ ymlExt], ?_, by simp⟩
+    have hr : resolve s = s ++ yamlExt := by simp [resolve, he]
+    simp [he, hr]
+  · by_cases hr : resolve s = s
+    · exact ⟨[], [], by simp [he, hr], by simp⟩
+    · refine ⟨[s], [], by simp [he, hr], ?_⟩
+      intro c hc t ht
+      have hc : c = s := by simpa using hc
+      subst hc
+      have := resolve_ext_ne_yml t
+      rw [ht] at this
+      exact this (ext_yml_of_resolve_ne c he hr)
+
+theorem findsOwnFile_true (s : List Char) : findsOwnFile s = true := by
+  obtain ⟨pre, post, h, _⟩ := find_first_hit s
+  simp [findsOwnFile, h]
+
+theorem findsOwnFilePre_yml (n : List Char) : findsOwnFilePre (n ++ ymlExt) = false := by
+  have h1 := splitExt_append n ['y', 'm', 'l'] yml_nodot
+  have h2 := resolve_yml n
+  simp only [ymlExt] at h2
+  have : n ++ yamlExt ≠ n ++ ['.', 'y', 'm', 'l'] := fun e => by
+    have := List.append_cancel_left e
+    revert this; decide
+  simp [findsOwnFilePre, findCandidatesPre, ymlExt, h1, h2, this]
+
 theorem get_firstIdx (x : List Char) (l : List (List Char)) (h : x ∈ l) : l[firstIdx x l]? = some x := by
   induction l with
   | nil => cases h
